@@ -20,6 +20,10 @@ type Entity struct {
 	fIdGenerator func() uint
 
 	muxGenerator sync.Mutex
+
+	// guards address and description: both are updated for a remote
+	// entity by discovery data while they are being read
+	muxDescription sync.Mutex
 }
 
 var _ api.EntityInterface = (*Entity)(nil)
@@ -44,6 +48,9 @@ func NewEntity(eType model.EntityTypeType, deviceAddress *model.AddressDeviceTyp
 }
 
 func (r *Entity) Address() *model.EntityAddressType {
+	r.muxDescription.Lock()
+	defer r.muxDescription.Unlock()
+
 	return r.address
 }
 
@@ -52,10 +59,16 @@ func (r *Entity) EntityType() model.EntityTypeType {
 }
 
 func (r *Entity) Description() *model.DescriptionType {
+	r.muxDescription.Lock()
+	defer r.muxDescription.Unlock()
+
 	return r.description
 }
 
 func (r *Entity) SetDescription(d *model.DescriptionType) {
+	r.muxDescription.Lock()
+	defer r.muxDescription.Unlock()
+
 	r.description = d
 }
 
